@@ -42,7 +42,7 @@ class Traced:
     (python scalars, strings, static fields) is closed over.  `conc` selects leaves kept concrete."""
 
     def __init__(self, f, args, prefix="a", conc=None, x64=True, use_stubs=False, sym_consts=False,
-                 trace_only_is_violation=False, missing="hint", fallback_key=None):
+                 trace_only_is_violation=False, missing="hint", fallback_key=None, lazy=False):
         self.missing = missing          # value of symbols absent from a model: "hint" or "example"
         self.f = f; self.args = args; self.prefix = prefix; self.use_stubs = use_stubs
         self.dyn, self.static = eqx.partition(args, _is_arr)
@@ -52,18 +52,25 @@ class Traced:
         self.in_leaves = [jnp.asarray(l) for l in flat]
         self.is_conc = [bool(conc and conc(n, l)) for n, l in zip(self.names, self.in_leaves)]
         self._out_static = None
-        t0 = time.time()
-        if use_stubs: stubs.install()
-        try:
-            self.closed = jax.make_jaxpr(self._flat_f)(*self.in_leaves)
-        finally:
-            if use_stubs: stubs.uninstall()
-        self.trace_s = time.time() - t0
+        self.closed = None; self.out_tree = None; self.trace_s = 0.0
+        # lazy (replays): the jaxpr is made on demand, so that the first thing the process does with the real code can be the
+        # concrete run of the recorded input (failures that depend on it being the first call in the process)
+        if not lazy: self._ensure()
         self.sym_ins = [conc_array(np.asarray(l)) if c else sym_array(n, l.shape, l.dtype)
                         for n, l, c in zip(self.names, self.in_leaves, self.is_conc)]
         self.A = self._rebuild(self.sym_ins)
         self.sym_consts = sym_consts
         self.const_syms = []
+
+    def _ensure(self):
+        if self.closed is not None: return
+        t0 = time.time()
+        if self.use_stubs: stubs.install()
+        try:
+            self.closed = jax.make_jaxpr(self._flat_f)(*self.in_leaves)
+        finally:
+            if self.use_stubs: stubs.uninstall()
+        self.trace_s = time.time() - t0
 
     # the traced function on flat leaves
     def _flat_f(self, *leaves):
@@ -84,10 +91,12 @@ class Traced:
         return eqx.combine(od, self._out_static, is_leaf=lambda x: x is None or _is_objarr(x))
 
     def prims(self):
+        self._ensure()
         return collect_prims(self.closed.jaxpr)
 
     def run(self, interp=None, **kw):
         """symbolic execution -> output pytree whose array leaves are object arrays of terms."""
+        self._ensure()
         it = interp or Interp(**kw)
         if self.sym_consts and it.sym_consts is None:
             def sc(k, c):
@@ -133,6 +142,9 @@ class Traced:
     def concretize_out(self, out):
         """concrete outputs in the structure recorded at trace time (a leaf that was an array under tracing may be a python
         number when the same code runs with jit disabled)"""
+        if self.out_tree is None:          # not traced (lazy replay): the structure of the concrete output itself
+            od, os_ = eqx.partition(out, _is_arr)
+            ol, self.out_tree = jax.tree_util.tree_flatten(od); self._out_static = os_
         n = self.out_tree.num_leaves
         template = jax.tree_util.tree_unflatten(self.out_tree, list(range(n)))
         picked = jax.tree_util.tree_map(lambda t, x: (None if t is None else np.asarray(x)), template, out, is_leaf=lambda x: x is None)
@@ -252,7 +264,7 @@ class Recorder:
                 self.replay_result = dict(reproduced=True, note=f"{type(ex).__name__}: {ex}")
             return None
         try:
-            return Traced(f, args, **kw)
+            return Traced(f, args, lazy=(self.replay is not None), **kw)
         except NotEncodable:
             raise
         except Exception as ex:
@@ -304,7 +316,7 @@ class Recorder:
         h = hashlib.sha1((self.prop + json.dumps(self.cfg, sort_keys=True) + prog + gname).encode()).hexdigest()[:10]
         path = f"/verif/replays/{self.prop}-{h}.json"
         with open(path, "w") as f:
-            json.dump(dict(property=self.prop, cfg=self.cfg, prog=prog, goal=gname, key=key, seed=self.seed,
+            json.dump(dict(property=self.prop, cfg=self.cfg, prog=prog, goal=gname, key=key, seed=self.seed, tier=self.tier,
                            model={k: (str(v) if isinstance(v, Fraction) else v) for k, v in model.items()},
                            note=note), f, indent=1)
         self.violations.append(dict(key=key, prog=prog, goal=gname, replay=path, note=note))
@@ -329,13 +341,6 @@ class Recorder:
             it = tr.last_interp
             for k, v in tr.prims().items(): self.prims[k] = self.prims.get(k, 0) + v
             ctxA = list(it.ctx.assume)
-            if validate:
-                try:
-                    self.validation.append(dict(prog=prog, **validate_translation(tr, O, hints)))
-                except RealCodeRaised as ex:
-                    self.records.append(dict(prog=prog, goal="a second (concrete) call after the traced one runs", verdict="sat", phase="trace", ms=0.0))
-                    self._record_violation((key_fn(prog, "state-kept-between-calls") if key_fn else prog + ":state-kept-between-calls"), prog, "real code raises", {}, note=str(ex))
-                    return
             A = list(assume) + ctxA + (extra_assume_fn(tr.A, O) if extra_assume_fn else [])
             dec = self.decider(A, hint_spec)
             goals = list(goal_fn(tr.A, O))
@@ -360,6 +365,14 @@ class Recorder:
                         self.inconclusive.append(f"{prog}/twin:{gname}: unknown")
             self.solver_time += dec.solver_time
             self.smt2.extend(dec.smt2)
+            if validate:
+                # translator validation (after the goals, so that a violation they found is on record: a code under test whose
+                # concrete re-run differs from its traced run also fails here)
+                try:
+                    self.validation.append(dict(prog=prog, **validate_translation(tr, O, hints)))
+                except RealCodeRaised as ex:
+                    self.records.append(dict(prog=prog, goal="a second (concrete) call after the traced one runs", verdict="sat", phase="trace", ms=0.0))
+                    self._record_violation((key_fn(prog, "state-kept-between-calls") if key_fn else prog + ":state-kept-between-calls"), prog, "real code raises", {}, note=str(ex))
             if dec.vacuous:
                 raise HarnessError(f"{prog}: assumptions used by a proof are unsatisfiable (vacuous): {dec.vacuous[:3]}")
         except NotEncodable as ex:
@@ -437,6 +450,39 @@ class Recorder:
             stubs.SCRIPT["uniform"], stubs.SCRIPT["perm"] = None, None
 
     def _replay(self, prog, tr, goal_fn, gname, model, hints, concrete_pred=None):
+        r = self._replay_inproc(prog, tr, goal_fn, gname, model, hints, concrete_pred)
+        if r.get("reproduced") is False and self.replay is None and not os.environ.get("VF_NO_FRESH"):
+            # this process has already run the code (at least the trace): a failure that needs the recorded call to be the FIRST
+            # one in its process (state kept at module level) is replayed in a fresh interpreter, untraced
+            r2 = self._fresh_replay(prog, gname, model)
+            if r2 is not None and r2.get("reproduced"):
+                return dict(reproduced=True, note="reproduced in a fresh process where the recorded call is the first use of the code "
+                                                  "(this process had already run it: the code keeps state between calls); " + (r2.get("note") or ""))
+        return r
+
+    def _fresh_replay(self, prog, gname, model):
+        import subprocess, sys, tempfile
+        os.makedirs("/verif/replays", exist_ok=True)
+        fd, path = tempfile.mkstemp(prefix="fresh-", suffix=".json", dir="/verif/replays")
+        try:
+            with os.fdopen(fd, "w") as f:
+                json.dump(dict(property=self.prop, cfg=self.cfg, prog=prog, goal=gname, key="", seed=self.seed, tier=self.tier,
+                               model={k: (str(v) if isinstance(v, Fraction) else v) for k, v in model.items()}, note=""), f)
+            env = dict(os.environ, VF_NO_FRESH="1")
+            p = subprocess.run([sys.executable, "-m", "vf.main", self.prop, "--replay", path], capture_output=True, text=True, timeout=600, env=env, cwd="/verif")
+            txt = p.stdout
+            k = txt.find("{")
+            if k < 0: return None
+            dec = json.JSONDecoder()
+            obj, _ = dec.raw_decode(txt[k:])
+            return obj.get("result")
+        except Exception:
+            return None
+        finally:
+            try: os.unlink(path)
+            except OSError: pass
+
+    def _replay_inproc(self, prog, tr, goal_fn, gname, model, hints, concrete_pred=None):
         model = {k: (Fraction(v) if isinstance(v, str) else v) for k, v in model.items()}
         leaves = tr.env_to_leaves(model, hints)
         if getattr(tr, "leaf_hook", None) is not None:
@@ -448,6 +494,9 @@ class Recorder:
         except RealCodeRaised as ex:     # the real code raising on the model input is itself a reproduction
             return dict(reproduced=True, note=f"real code raised {ex}")
         g = goals.get(gname)
+        if g is None:      # the same comparison is named "<label> (structure/shapes)" when the two sides do not even have the same shape
+            base = gname[:-len(" (structure/shapes)")] if gname.endswith(" (structure/shapes)") else gname
+            g = goals.get(base, goals.get(base + " (structure/shapes)"))
         if g is None: return dict(reproduced=None, note="goal not found in concrete run")
         if g.is_const and not g.val:
             return dict(reproduced=True, note="")
